@@ -6,6 +6,7 @@ mod oracle;
 mod props_a;
 mod props_b;
 mod props_c;
+mod props_long;
 mod proto;
 mod rng;
 mod tables;
@@ -65,6 +66,10 @@ fn run_prop_guarded(ctx: &mut Ctx) -> bool {
 }
 
 fn run_prop_inner(ctx: &mut Ctx) -> bool {
+    props_long::long_cases(ctx);
+    if std::env::var_os("TW_LONG_ONLY").is_some() {
+        return true;
+    }
     match ctx.prop.as_str() {
         "C01" => props_b::c01(ctx),
         "C02" => props_b::c02(ctx),
